@@ -10,6 +10,13 @@ TRUST = ("Trusted base: the Go type checker and go/ssa (x/tools v0.29.0) as a fa
 
 # id -> (technique, level text, level_note, design_ref)
 CLAIMED = {
+    "C05": (
+        "success-condition tables: decoded guard sets of every validator's success and failure returns (CFG edge dominance) + argument origins (access paths) + error-flow (path enumeration) + type-switch coverage",
+        "Decides the admission predicate structurally for all paths: each validator (Spec, Device, ContainerEdits, Hook, DeviceNode, Mount, IntelRdt, env, annotations) can return success exactly under the documented conditions, "
+        "is called with the right field of the right object, for every list element, with its error tested and propagated on every path; decoding is strict; null list entries are rejected before use; the annotation validator's type switch covers every call site's static type; "
+        "isEmpty covers every field; the device type table is as specified. A dropped, loosened, mis-wired or skipped check changes a guard set, an argument origin or an error flow and is reported.",
+        TRUST + "Does not decide the languages accepted by the name and qualified-name validators (C07 covers the repo's own), YAML strictness inside the decoder, the version gate (C06).",
+        "DESIGN.md §4 C05"),
     "C01": (
         "CFG guard-set decoding + access-path origins + abstract evaluation of the conflict closure over the three order types of the compared priorities (path enumeration)",
         "Decides the skeleton of scan -> index for all paths: extension table at every filter site, walk filter (non-directory, Spec extension, sub-directories skipped), priority = directory index flowing unchanged into Spec.priority, "
